@@ -33,6 +33,14 @@ fn check_image(snap: &[u8], start: usize, hi: usize, what: &str) -> Vec<Violatio
         if p.code == "dirent-unused-nonzero" {
             continue;
         }
+        // ... and the type itself is published upper half first: until the lower half is there the entry
+        // carries a number that is no stream type at all (low 16 bits zero) - never another stream's type
+        if p.code == "stream-unknown-type" {
+            let t = p.detail.rsplit("0x").next().and_then(|h| u32::from_str_radix(h.trim(), 16).ok());
+            if t.map(|t| t & 0xffff == 0).unwrap_or(false) {
+                continue;
+            }
+        }
         // in a truncated image every reference must already be satisfiable
         out.push(v("C10", &format!("prefix-{}", p.code), format!("{} ({} bytes present): {}", what, img.len(), p.detail)));
     }
